@@ -16,7 +16,7 @@ from vf.specs import CONVEX_FAMILIES, build, grid, loggrid, problem_spec, sgrid,
 ID = "C12"
 LEVEL = "exploration"
 RULE = (
-    "(1) Hypothesis draws unconstrained problems (QP+quartic, QP+softplus, Rosenbrock n<=8, |g(x0)|>=1 by construction) and probe families (anisotropic sphere started so that the first trial's "
+    "(1) Hypothesis draws unconstrained problems (QP+quartic, QP+softplus, Rosenbrock n<=8, |g(x0)|>=1 by construction; also with the objective multiplied by 10^2..10^10 and with the finite-difference step option set although the gradient is callable) and probe families (anisotropic sphere started so that the first trial's "
     "decrease ratio is rho ~ 1e-3 or its slope ratio ~ 0.9, i.e. on the boundary of the sufficient-decrease / curvature tests), maxcor 1..8, 12 iterations, default line-search constants; the evaluation "
     "points of minimize_lbfgsb and of scipy.optimize.minimize(method='L-BFGS-B') are compared index by index until the first documented deviation detected on SciPy's trace (trial step > 1 in "
     "iteration 0, an earlier trial lower than the accepted last one, |g0|<1) or the round-off regime (pg <= 1e-5*pg0, or the accumulated rounding drift between the two implementations has itself exceeded 1e-6). (2) convex box problems of C01 with gtol=1e-8: f_port - f_scipy <= 1e-8*(1+fmag). "
@@ -81,6 +81,8 @@ def check_unconstrained(spec, stats=None):
         raise Discard("|g(x0)| < 1 (documented deviation 3 avoided by construction)")
     log, iters, res = scipy_trace(prob, m, 12, 1e-10)
     cfg = {"maxcor": m, "maxiter": 12, "maxfun": 15000, "maxls": 20, "ftol": 0.0, "gtol": 1e-10}
+    if spec.get("eps") is not None:
+        cfg["eps"] = spec["eps"]  # finite-difference step: documented to matter only when jac is None
     tr = run_min(prob, cfg, bounds=None if spec.get("bounds_none", True) else "default")
     if tr.exc is not None:
         raise tr.exc
@@ -163,7 +165,12 @@ def unconstrained_strategy(draw):
         p = {"obj": {"family": "sphere_probe", "n": n, "s": svec, "a": a}, "lb": [None] * n, "ub": [None] * n, "x0": x0}
         return {"kind": "unc", "problem": p, "maxcor": m, "probe": probe}
     p = draw(problem_spec(families=(kind,), n_min=2 if kind == "rosenbrock" else 1, n_max=8, box_mode="free", kappa_max_exp=3.0))
-    return {"kind": "unc", "problem": p, "maxcor": m}
+    out = {"kind": "unc", "problem": p, "maxcor": m}
+    k = draw(st.sampled_from([0, 0, 0, 2, 5, 8, 10]))
+    if k:
+        p["units"] = {"xs": 1.0, "fs": 10.0 ** k}  # the same problem with f in other units: curvature up to 1e13
+    out["eps"] = draw(st.sampled_from([None, None, 1e-8, 1e-2]))
+    return out
 
 
 # ------------------------------------------------------------------ (2) convex box problems
